@@ -51,6 +51,7 @@ def evalR : Nat := 16     -- [i]               R pushed through steps[i]
 def loadR : Nat := 17     -- [src]             R = Q[src]
 def split : Nat := 18     -- [i]               splitting_comput on steps[i].codomain
 def dblIterP : Nat := 19  -- [dst, k, src]     points[dst] = [2^k] points[src]  (double_couple_jac_point_iter)
+def eval2 : Nat := 20     -- [dst, src, n]     n points starting at A[src] pushed through the current 2-isogeny into A[dst]
 end EvKind
 
 structure IArr where
